@@ -131,7 +131,7 @@ def guarded(fn: Callable[..., Result]) -> Callable[..., Result]:
             if frame is None:
                 raise
             res = Result()
-            res.fail(f"exception in repository code: {type(exc).__name__}: {str(exc)[:200]} @ {frame}")
+            res.fail(f"exception in repository code: {type(exc).__name__} @ {frame} :: {str(exc)[:200]}")
             res.labels.append(f"exc:{type(exc).__name__}@{frame}")
             return res
     wrapper.__name__ = fn.__name__
